@@ -1515,6 +1515,10 @@ ASMJIT_FAVOR_SPEED Error X86RAPass::rewrite() noexcept {
               ASMJIT_ASSERT(work_reg != nullptr);
 
               RAStackSlot* slot = work_reg->stack_slot();
+              if (ASMJIT_UNLIKELY(!slot)) {
+                // The home slot could not be allocated when the register was spilled (see work_reg_as_mem()).
+                return make_error(Error::kOutOfMemory);
+              }
               int32_t offset = slot->offset();
 
               mem._set_base(_sp.reg_type(), slot->base_reg_id());
@@ -1570,6 +1574,10 @@ Error X86RAPass::emit_swap(RAWorkReg* a_reg, uint32_t a_phys_id, RAWorkReg* b_re
 }
 
 Error X86RAPass::emit_load(RAWorkReg* work_reg, uint32_t dst_phys_id) noexcept {
+  if (ASMJIT_UNLIKELY(!get_or_create_stack_slot(work_reg))) {
+    return make_error(Error::kOutOfMemory);
+  }
+
   Reg dst_reg(work_reg->signature(), dst_phys_id);
   BaseMem src_mem(work_reg_as_mem(work_reg));
 
@@ -1587,6 +1595,10 @@ Error X86RAPass::emit_load(RAWorkReg* work_reg, uint32_t dst_phys_id) noexcept {
 }
 
 Error X86RAPass::emit_save(RAWorkReg* work_reg, uint32_t src_phys_id) noexcept {
+  if (ASMJIT_UNLIKELY(!get_or_create_stack_slot(work_reg))) {
+    return make_error(Error::kOutOfMemory);
+  }
+
   BaseMem dst_mem(work_reg_as_mem(work_reg));
   Reg src_reg(work_reg->signature(), src_phys_id);
 
